@@ -28,6 +28,8 @@ THEOREMS = [
     "Mesa.Viz.C20_markers_inside_the_limits",
     "Mesa.Viz.C20_network_markers_at_layout_positions",
     "Mesa.Viz.C20_plot_one_line_per_requested_measure",
+    "Mesa.Viz.C20_plot_lines_labelled_and_coloured",
+    "Mesa.Viz.C20_plot_backend_and_empty_layout",
     "Mesa.Viz.C20_altair_one_row_per_agent",
     "Mesa.Viz.C20_altair_row_values",
     "Mesa.Viz.C20_altair_chart_encoding",
@@ -46,6 +48,7 @@ THEOREMS = [
     "Mesa.Viz.C20_draw_space_with_layers",
     "Mesa.Viz.C20_layer_color_modes_agree_in_range",
     "Mesa.Viz.C20_check_accepts_iff_binds_by_keyword",
+    "Mesa.Viz.C20_check_with_controller_keywords",
     "Mesa.Viz.C20_split_lossless_disjoint",
     "Mesa.Viz.C20_creator_checks_all_params",
     "Mesa.Viz.C20_creator_params_lossless",
@@ -59,6 +62,7 @@ THEOREMS = [
     "Mesa.Viz.C20_ctrl_play_runs_to_the_models_stop",
     "Mesa.Viz.C20_ctrl_pause",
     "Mesa.Viz.C20_ctrl_running_flag_is_the_models",
+    "Mesa.Viz.C20_ctrl_reset_flag_ignores_a_stopped_model",
 ]
 COUNTS = {"quick": 1600, "thorough": 60000}
 TRUSTED = [
@@ -78,7 +82,7 @@ ASSUMPTIONS = [
     "portrayal values are colour names, RGB / RGBA tuples (also mixed, V14), marker symbols, ints; alpha as a float; numbers to be colour-mapped are outside the generator",
     "2-D spaces",
 ]
-RULE = ("3% plot scenarios: a model with a real DataCollector over 1-3 measures with 0-5 collected rows, PlotMatplotlib (through make_plot_component and solara.render, Axes taken from the post_process hook) for string / dict / list / tuple / other requests incl. measures not collected and repeated ones, the backend dispatch; 12% ctrl scenarios: the real SolaraViz on a model class taking **kw that stops at kw[stop] (ModelController, or SimulatorController with an ABMSimulator), model_params of 0-4 entries (fixed ints / dicts, int / float Slider objects, option dicts of the five input types, rarely an unsupported type), render interval 1-5, threads on / off, then 3-12 user actions: Step, play / pause, Reset, render-interval and threads changes, input changes (also of names without an input), and play loops of 0-4 scripted ticks during whose sleeps the user does nothing / pauses / resets / moves the render slider / changes an input and during whose steps (15%) clicks pause; observed after every action: model.steps, model.running, the buttons (label, disabled), the render interval, the update counter, the keyword arguments the current model was created with; 40% space scenarios: one of 12 space classes (4 mesa.space grids, 3 discrete_space grids, 2 networks with 1-6 nodes, shuffled / "
+RULE = ("3% plot scenarios: a model with a real DataCollector over 1-3 measures with 0-5 collected rows, PlotMatplotlib (through make_plot_component and solara.render, Axes taken from the post_process hook) for string / dict / list / tuple / other requests incl. measures not collected and repeated ones, the backend dispatch; 12% ctrl scenarios: the real SolaraViz on a model class that is running while steps < its stop argument (also at step 0: stop=0 stops in the constructor) — 60% taking **kw (simulator=None, **kw), 40% with a generated signature: takers (positional-or-keyword / keyword-only, with / without default) for most names of model_params, sometimes one missing or one more, with / without **kw, with / without a simulator parameter (required or not), simulator rarely among model_params — under a ModelController or a SimulatorController with an ABMSimulator (its reset passes simulator= as well: the check against that call, a TypeError of Reset is a failed clause), model_params of 0-4 entries (fixed ints / dicts, int / float Slider objects, option dicts of the five input types, rarely an unsupported type), render interval 1-5, threads on / off, then 3-12 user actions: Step, play / pause, Reset, render-interval and threads changes, input changes (also of names without an input), and play loops of 0-4 scripted ticks during whose sleeps the user does nothing / pauses / resets / moves the render slider / changes an input and during whose steps (15%) clicks pause; observed after every action: model.steps, model.running, the buttons (label, disabled), the render interval, the update counter, the keyword arguments the current model was created with; 40% space scenarios: one of 12 space classes (4 mesa.space grids, 3 discrete_space grids, 2 networks with 1-6 nodes, shuffled / "
         "non-contiguous node labels and possibly no edges, Voronoi with 1-6 centroids, 2 continuous spaces; half of the mesa.space ContinuousSpaces with an origin x_min, y_min in -3..3), sizes 1-5 (4% of the mesa.space grids / ContinuousSpace: width or height 0; 3% of the networks: no node — spaces without room, which draw_space / Altair refuse), 0-6 agents with several per cell, "
         "agents never placed, a pool of 0-4 portrayal dict *objects* shared between agents (keys color/size/marker/zorder, colours as names and as RGB(A) tuples — none / all / mixed —, the optional "
         "alpha/edgecolors/linewidths under an all/none/some policy, unsupported keys), interleaved place/move/remove/dict-rewrite/"
@@ -89,7 +93,7 @@ RULE = ("3% plot scenarios: a model with a real DataCollector over 1-3 measures 
         "absent / on / off; constant layers; float and int layers; drawn repeatedly; on non-grid classes), including observations of the space without agents; "
         "45% parameter scenarios: 1-3 generated __init__ signatures (instance parameter named self/this, positional-only, missing; "
         "positional-only, positional-or-keyword, *args, keyword-only, **kwargs under any name, defaults) each with 2-6 key sets "
-        "(required names mostly present, extras, the instance's name, positional-only names) through _check_model_params, "
+        "(required names mostly present, extras, the instance's name, positional-only names, `simulator`) through _check_model_params (a quarter of them told that simulator= is passed anyway), "
         "ModelCreator (solara.render) and split_model_params, and through ModelCreator on full parameter dicts (fixed ints and dicts, int / float "
         "Slider objects, option dicts of the five supported and of unsupported types, with / without value and label) followed by changes of "
         "inputs (model_parameters read back after each); plus, on every run, the exhaustive enumeration of all signature shapes "
